@@ -24,14 +24,15 @@ CHECKS = {
     'C03': dict(
         level='exploration', technique='exhaustive feature-product enumeration of API-built and parsed databases, SQL read back by an independent DDL reader and compared fact by fact with a reference computed from the abstract model',
         text='The full product of column flags x default values x type kinds x notes, every pk layout x position x schema x table note, the index feature product and enum shapes '
-             'are each built (public classes and parser), rendered with .sql, read back by verif/ddl.py and compared with the facts the statement prescribes; any unrecognised statement is a violation.',
+             'are each built (public classes and parser), rendered with .sql, read back by verif/ddl.py and compared with the facts the statement prescribes; any unrecognised statement is a violation. '
+             'Each API-built database is also rendered, edited in place (pk layout, column name, schema) and rendered again; every second one is built with shared Note objects; enum items with quotes and API-only names with a double quote are included.',
         note='Trusts verif/ddl.py (lexical SQL reader) and verif/sqlref.py (the statement turned into facts). String defaults restricted to tokens the reader can delimit; boolean spelling case-insensitive.',
         design='DESIGN.md §3 C03'),
     'C04': dict(
         level='exploration', technique='exhaustive enumeration of reference sets (size 1 full product, size 2 all ordered pairs, size 3 core) over a 3-table universe; multiset equality of FOREIGN KEY facts read back from SQL',
         text='Every single reference over kind x inline x arity x 9 table pairs x name x 36 action pairs, every ordered pair over the reduced product and (thorough) every triple over a core set is built, rendered and '
              'read back; the multiset of FOREIGN KEY facts (placement, key table, key columns in order, referenced table and columns, constraint name, actions) must equal the one computed from the references, '
-             'and each many-to-many reference must have its structurally correct join table with two foreign keys back.',
+             'and each many-to-many reference must have its structurally correct join table with two foreign keys back. The universe has two tables with one bare name in different schemas; single references are also checked after a render / re-type / move-schema / render history.',
         note='Trusts verif/ddl.py and verif/sqlref.py. Join-table column names are not prescribed by the statement and not compared.',
         design='DESIGN.md §3 C04'),
     'C05': dict(
@@ -53,7 +54,7 @@ CHECKS = {
         level='fault_enumeration', technique='every fault kind at every site of the token stream of harness-written seed documents (faults invalid by construction), parsed by the real parser',
         text='For five seed documents (two models, three styles) every token boundary receives each stray token, every closer and closing quote is deleted, every closer / opener doubled, every column loses its type, every settings list '
              'receives an unknown word / key:value at every position (and is emptied / given a trailing comma), every index type, reference operator, action and colour is replaced by each invalid value, and the document is cut at every boundary '
-             'that leaves a construct open. Every mutated document must raise a parse error (or a library / column-less error); a returned Database or any other exception class is a violation.',
+             'that leaves a construct open; every line start receives a comment ending in a backslash, quote, brace ... followed by a non-DBML line, and every element keyword is glued to the following name. Every mutated document must raise a parse error (or a library / column-less error); a returned Database or any other exception class is a violation.',
         note='Seeds contain no comments and no quote characters inside strings, so the faults cannot be swallowed. The token structure comes from verif/writer.py, not from pydbml.',
         design='DESIGN.md §3 C07'),
     'C08': dict(
@@ -83,7 +84,7 @@ CHECKS = {
         level='model_checking', technique='explicit-state exploration of call histories over the shared grammar state (warm and cold start, snapshot state graph, census), result-pair reachability + mutation oracle, stateless preemption-bounded schedule exploration with a controlled thread scheduler, fresh-process cross-check',
         text='Every history of up to 2 calls over 39 calls (13 documents x 3 option sets) and up to 3 (quick) / 4 (thorough) over a reduced alphabet is executed from the warm and from the cold shared state; every outcome must equal the isolated outcome, earlier results must stay intact, '
              'and the census of live pydbml objects must return to the baseline. Every ordered pair of results must share no mutable object and survive exhaustive mutation of the other. Pairs of calls run in two threads under every schedule with at most one preemption at any pydbml '
-             'line event (warm, and cold-start for some pairs) and must give their isolated outcomes. Every call is repeated in a fresh interpreter.',
+             'line event (warm, and cold-start for some pairs) and must give their isolated outcomes; the thorough tier adds every two-preemption schedule at call granularity, three-thread schedules and cold-start schedules preempted at every write to a shared grammar element. Every call is repeated in a fresh interpreter; a free-running multi-thread pass is supplementary.',
         note='Scheduling points are line events in <repo>/pydbml frames; pyparsing frames run untraced between them. The shared-state snapshot (verif/heap.py) excludes display-name caches and is reported as evidence; the verdict is outcome equality, object sharing and the census.',
         design='DESIGN.md §3 C11'),
     'C12': dict(
@@ -118,7 +119,7 @@ CHECKS = {
         level='model_checking', technique='configuration product x routes x attach/detach histories with tagged custom renderers; exactly-once containment on every C01 BFS state; exhaustive render-call sequences with a public-model snapshot after every call',
         text='4x4 renderer configurations on four configuration routes, each with add/delete/re-add histories of every top-level element kind and its columns, decide which class rendered each text; on every well-formed '
              'state of the C01 derivation BFS every element text must occur exactly once, at an element boundary, in the database text; every sequence of render calls up to the bound (23 calls, incl. the join table of a <> reference) '
-             'must leave the public model snapshot unchanged and return what the call returns when evaluated first.',
+             'must leave the public model snapshot unchanged and return what the call returns when evaluated first (also on a database with an inline composite reference, whose DBML raises). Routing is also checked on a database without tables, after deleting through an equal object of another database, and exactly-once after a referenced table was deleted.',
         note='Custom renderers are BaseRenderer subclasses with their own handler dict. The purity snapshot is the public model (content, order, identity per container slot, back-pointers); private attributes are not part of it.',
         design='DESIGN.md §3 C16'),
     'C17': dict(
@@ -132,7 +133,7 @@ CHECKS = {
     'C18': dict(
         level='exploration', technique='exhaustive enumeration of all labelled DAGs (n<=4/5) x edge kinds, SQL read back by independent DDL reader',
         text='Every labelled DAG of inline references on up to 4 (quick) / 5 (thorough) tables with every assignment of kinds >,<,- is built, '
-             'rendered and read back; the order, permutation and determinism clauses are decided for each. Small-scope exhaustive: the ordering '
+             'rendered and read back; the order, permutation, clause-placement and determinism clauses are decided for each, including a render / make-one-reference-standalone / render history against a fresh build, a two-schema same-name variant and a column-less table. Small-scope exhaustive: the ordering '
              'rule is a function of the reference graph only, and every graph shape up to the bound is covered.',
         note='Trusts verif/ddl.py to recognise CREATE TABLE / FOREIGN KEY. Databases are API-built. The pinned count heuristic is a recorded known finding '
              '(known_findings.json C18-count-heuristic); any order other than the one that heuristic predicts is reported.',
